@@ -1,10 +1,11 @@
 #!/bin/sh
 # audit.sh [Cxx ...] : independent re-check (coqchk) of the property theorems of the given properties
 # (default: all).  Needs build/Cxx/ of a previous `./check Cxx` run (the regenerated modules and the
-# compiled Properties*.vo).  For each property coqchk re-checks Properties*.vo AND everything it depends on
-# (the static library, the regenerated modules, the Coq standard library and add-ons) and prints, with -o,
-# the axioms the whole closure relies on.  Output: notes/audit/Cxx.txt (committed; not evidence).
-# About 1-3 minutes and up to 4 GB per property; not part of the per-change checks.
+# compiled Properties*.vo); do not run a check of the same property at the same time.  For each property
+# coqchk re-checks Properties*.vo AND everything it depends on (the static library, the regenerated modules, the
+# Coq standard library and add-ons) and prints, with -o, the axioms the whole closure relies on.
+# Output: notes/audit/Cxx.txt (committed; not evidence).  Minutes to tens of minutes and up to 4 GB per
+# property (vm_compute-heavy proofs are re-evaluated by coqchk's own interpreter); not part of the per-change checks.
 cd "$(dirname "$0")/.." || exit 2
 mkdir -p notes/audit
 [ $# -eq 0 ] && set -- C01 C02 C03 C04 C05 C06 C07 C08 C09 C10 C11 C12 C13 C14 C15 C16 C17 C18 C19 C20
@@ -14,14 +15,18 @@ for p in "$@"; do
   mods=$(cd $b 2>/dev/null && ls Properties*.vo 2>/dev/null | sed 's/\.vo$//; s/^/Run./' | tr '\n' ' ')
   if [ -z "$mods" ]; then echo "$p: no build/$p/Properties*.vo (run ./check $p first)"; rc=1; continue; fi
   out=notes/audit/$p.txt
-  { echo "# coqchk -silent -o -Q coq Verif -Q $b Run $mods   ($(coqchk -v 2>&1 | head -1))"
-    ( ulimit -s unlimited; timeout ${AUDIT_TIMEOUT:-2400} coqchk -silent -o -Q coq Verif -Q $b Run $mods 2>&1 ) | grep -v '^$' | grep -vi conda
-    echo "# exit=$?"; } > $out.tmp
-  if grep -q "Modules were successfully checked" $out.tmp; then
-    # keep the summary only: context, axioms, flags
-    sed -n '1p;/CONTEXT SUMMARY/,$p' $out.tmp > $out; echo "$p: checked ($(grep -c '^    [A-Za-z]' $out) axiom lines)"
+  t0=$(date +%s)
+  ( ulimit -s unlimited; timeout ${AUDIT_TIMEOUT:-2400} coqchk -silent -o -Q coq Verif -Q $b Run $mods > $out.tmp 2>&1 )
+  st=$?
+  t1=$(date +%s)
+  if [ $st -eq 0 ] && ! grep -q "Fatal Error\|Error:" $out.tmp; then
+    { echo "# coqchk -silent -o -Q coq Verif -Q $b Run $mods   ($(coqchk -v 2>&1 | head -1)); exit 0 after $((t1-t0)) s"
+      grep -v '^$' $out.tmp | grep -vi conda; } > $out
+    rm -f $out.failed
+    echo "$p: checked in $((t1-t0)) s ($(grep -c '^    [A-Za-z]' $out) axiom lines)"
   else
-    mv $out.tmp $out.failed; echo "$p: coqchk FAILED, see $out.failed"; rc=1
+    { echo "# coqchk exit status $st after $((t1-t0)) s (124 = time limit ${AUDIT_TIMEOUT:-2400} s)"; tail -5 $out.tmp; } > $out.failed
+    echo "$p: coqchk did not succeed (status $st), see $out.failed"; rc=1
   fi
   rm -f $out.tmp
 done
